@@ -57,7 +57,10 @@ type Conn struct {
 	timeoutLoopDone chan struct{}
 
 	// Read state.
-	readMu         *mu
+	readMu *mu
+	// Set under readMu once the close handshake has started to discard what it
+	// reads, from then on the message reader's state is stale.
+	readDiscarding bool
 	readHeaderBuf  [8]byte
 	readControlBuf [maxControlPayload]byte
 	msgReader      *msgReader
